@@ -322,7 +322,7 @@ func consensusErrRule(p *Prog, r *Report, rule string) {
 		}
 	}
 	sort.Slice(fs, func(i, j int) bool { return fs[i].String() < fs[j].String() })
-	n, nEx := 0, 0
+	n, nEx, nCls := 0, 0, 0
 	var exempt []string
 	for _, f := range fs {
 		for _, b := range f.Blocks {
@@ -358,6 +358,23 @@ func consensusErrRule(p *Prog, r *Report, rule string) {
 				if why := absentIsAnAnswer(f, cf, c); why != "" {
 					nEx++
 					exempt = append(exempt, f.Name()+"/"+cf.Name())
+					continue
+				}
+				// the function asks which error it is (anywhere): accepted idiom, its handling is the function's business
+				classified := false
+				for _, bb := range f.Blocks {
+					for _, in := range bb.Instrs {
+						if cc, isC := in.(ssa.CallInstruction); isC && isErrClassifier(cc.Common()) {
+							for _, a := range cc.Common().Args {
+								if a == x || unwrap(a) == unwrap(x) || sameErrVar(x, a) {
+									classified = true
+								}
+							}
+						}
+					}
+				}
+				if classified {
+					nCls++
 					continue
 				}
 				n++
@@ -439,7 +456,7 @@ func consensusErrRule(p *Prog, r *Report, rule string) {
 		}
 	}
 	sort.Strings(exempt)
-	r.Note("%s: %d tested errors of store / hashgraph calls in %d consensus / pass functions of package hashgraph; %d sites where 'absent' is an answer by design (table absentIsAnAnswer): %s", rule, n, len(fs), nEx, strings.Join(exempt, ", "))
+	r.Note("%s: %d tested errors of store / hashgraph calls in %d consensus / pass functions of package hashgraph; %d tests of errors the function classifies (IsStore / errors.Is …); %d sites where 'absent' is an answer by design (table absentIsAnAnswer): %s", rule, n, len(fs), nCls, nEx, strings.Join(exempt, ", "))
 }
 
 // absentIsAnAnswer: the sites, confirmed by reading, where the code deliberately treats "the store does not have it" as
